@@ -17,8 +17,11 @@ def cat_values():
     vals = falsy + [x, y, z, cat.Ob('x'), f, g, h, f.dagger(), g.dagger(), cat.Box('f', x, y), cat.Id(x), cat.Id(y),
             f >> g, cat.Arrow(x, y, [f]), cat.Arrow(x, z, [f, g]), f >> f.dagger(), (f >> g).dagger(),
             cat.Id(x) >> f, f + h, cat.Sum([f, h]), cat.Sum([h, f]), cat.Sum([], x, y), cat.Sum([f]),
-            cat.Box('f', y, x), f.dagger().dagger()]
-    ns = {'Ob': cat.Ob, 'Box': cat.Box, 'Arrow': cat.Arrow, 'Id': cat.Id, 'Sum': cat.Sum}
+            cat.Box('f', y, x), f.dagger().dagger(),
+            # sums however they were built (tuple / list of terms), bubbles with default and explicit types
+            cat.Sum((f, h)), f.bubble(), h.bubble(), cat.Box('f', x, y).bubble(),
+            f.bubble(dom=y, cod=x), (f >> g).bubble()]
+    ns = {'Ob': cat.Ob, 'Box': cat.Box, 'Arrow': cat.Arrow, 'Id': cat.Id, 'Sum': cat.Sum, 'Bubble': cat.Bubble}
     return vals, ns
 
 
@@ -30,8 +33,12 @@ def monoidal_values():
     falsy = [Box('f', x, y @ y, data=d) for d in (0, [], ())] + [Box('f', x, y @ y, data=0).dagger()]
     vals = falsy + [Ty(), x, y, x @ y, Ty('x', 'y'), Ty(1), PRO(2), PRO(0), Ty(1, 1), f, g, s, f.dagger(), Swap(x, y), Swap(y, x),
             Box('f', x, y @ y), Id(x), Id(Ty()), Id(x @ y), f @ g, f >> g @ g, Diagram(x, y @ y, [f], [0]),
-            f + f, Sum([f]), Sum([], x, y), f @ s, s @ f] + D[:40]
-    ns = {'Ty': Ty, 'Box': Box, 'Id': Id, 'Diagram': Diagram, 'Swap': Swap, 'Sum': Sum, 'PRO': PRO, 'Ob': cat.Ob}
+            f + f, Sum([f]), Sum([], x, y), f @ s, s @ f,
+            Sum((f, f)), f.bubble(), Box('f', x, y @ y, data=0).bubble(), f.bubble(dom=x @ x, cod=y), (f >> g @ g).bubble(),
+            f.bubble() >> g @ g] + D[:40]
+    from discopy.monoidal import Bubble
+    ns = {'Ty': Ty, 'Box': Box, 'Id': Id, 'Diagram': Diagram, 'Swap': Swap, 'Sum': Sum, 'PRO': PRO, 'Ob': cat.Ob,
+          'Bubble': Bubble}
     return vals, ns
 
 
